@@ -59,6 +59,10 @@ func scenC11(x *Exec) {
 		if g.Bool(0.3) {
 			a.F.NotSub = []string{"b", "y"}[g.Pick(2)]
 		}
+		if g.Bool(0.3) {
+			// with and without a literal prefix the matcher could short-cut on
+			a.F.NotRegex = []string{`\.y$`, `^in\.b`, `drop`, `^(in|agg)\.a\.x`, `\.(x|c)$`}[g.Pick(5)]
+		}
 		tp.Aggs = append(tp.Aggs, a)
 	}
 	nr := 1 + g.Intn(4)
